@@ -16,7 +16,10 @@
                        over the files by priority, null = unset), else the built-in default
      spec_ignore_path= the same rule per path of the 'Ignore' mapping. *)
 From Coq Require Import List NArith ZArith Bool String.
-From NB Require Import Base.Json Base.Res Diff.Codec Gen.ConfigClasses.
+From NB Require Import Base.Json.
+From NB Require Import Base.Res.
+From NB Require Import Diff.Codec.
+From NB Require Import Gen.ConfigClasses.
 Import ListNotations.
 Local Open Scope list_scope.
 
